@@ -23,5 +23,11 @@ r = subprocess.run(['gcc', '-fsanitize=address,undefined', '-x', 'c', '-', '-o',
 if r.returncode != 0:
     print('gcc sanitizers unusable')
     ok = False
+# libcrypto / libssl (OpenSSL) are linked by several drivers
+r = subprocess.run(['gcc', '-x', 'c', '-', '-o', '/dev/null', '-lssl', '-lcrypto'],
+                   input=b'#include <openssl/ssl.h>\nint main(void){return (SSL_library_init() ? 0 : 1);}')
+if r.returncode != 0:
+    print('OpenSSL development files (libssl, libcrypto) unusable')
+    ok = False
 print('setup ok' if ok else 'setup FAILED')
 sys.exit(0 if ok else 1)
